@@ -231,7 +231,7 @@ func checkC04(r *Run) {
 				continue
 			}
 			// tremove: the exit of the failed lookup is the only exception.
-			if v, ok := errnoOf(info, ex.Ret); ok && v == 9 && !ex.St.May["p9.connState.DeleteFID"] && nm == "tremove.handle" && ex.St.holds("ok", false) {
+			if v, ok := errnoOf(info, ex.Ret); ok && v == 9 && !ex.St.May["p9.connState.DeleteFID"] && nm == "tremove.handle" && ex.St.holds(m.resultName(fi, -1, isCallTo(info, "p9.connState.LookupFID")), false) {
 				r.ok("r2", key, pos, "fid was not bound (lookup failed): nothing to unbind")
 				continue
 			}
